@@ -5,5 +5,5 @@ CONSTANTS
   Scope = "t"
   CfgNames = {"plain", "rich", "trivial", "pad", "overflow", "maxwrap3", "nofoot"}
   Emit = TRUE
-INVARIANTS Inv_C02_Step Inv_C03_Step Inv_C09_Balanced Inv_C01 Inv_C11 Inv_P_C02 Inv_P_C03 Inv_Emit
+INVARIANTS Inv_C02_Step Inv_C03_Step Inv_C09_Balanced Inv_C01 Inv_C11 Inv_P_C02 Inv_P_C03 Inv_P_C08 Inv_P_C09 Inv_P_C14 Inv_Emit
 CHECK_DEADLOCK FALSE
